@@ -81,12 +81,15 @@ def c13(tier, seed):
     jobs = []
     for kw in kws:
         n = 3 if kw in ("BUY", "SELL") else 1
-        jobs += [(kw, f"{i}/{n}") for i in range(n)]
+        jobs += [(kw, f"{i}/{n}", L, "") for i in range(n)]
+    if tier == "quick":
+        # the TAX clause of a DIVIDEND line needs 35 bytes: two obligations at a longer bound
+        jobs.append(("DIVIDEND", "0/1", 36, "letter-case,trailing-comment"))
 
     def run_kw(job):
-        kw, part = job
-        out = os.path.join(wd, f"{kw}-{part.replace('/', 'of')}.json")
-        p = subprocess.run([PY, os.path.join(symx.ROOT, "pegsmt/run.py"), "worker", symx.REPO, dump, str(L), kw, out, str(tmo), part], capture_output=True, text=True, timeout=tmo * 12)
+        kw, part, Lj, only = job
+        out = os.path.join(wd, f"{kw}-{Lj}-{part.replace('/', 'of')}.json")
+        p = subprocess.run([PY, os.path.join(symx.ROOT, "pegsmt/run.py"), "worker", symx.REPO, dump, str(Lj), kw, out, str(tmo), part, only], capture_output=True, text=True, timeout=tmo * 12)
         if os.path.exists(out):
             return json.load(open(out))
         return {"keyword": kw, "obligations": [], "planned": 0, "error": p.stderr[-400:]}
@@ -137,7 +140,7 @@ def c13(tier, seed):
             continue
         if r.get("reachable", {}).get("verdict") != "sat":
             inconclusive.append(f"no accepted line with keyword {r['keyword']} within L={L}: the obligations for it are vacuous ({r.get('reachable')})")
-        elif len(samples) < 4 and r.get("part", "0/1").startswith("0/"):
+        elif len(samples) < 4 and r.get("part", "0/1").startswith("0/") and r.get("L") == L:
             samples.append({"keyword": r["keyword"], "accepted_example": r["reachable"]["example"], "obligations": [[o["name"], o["verdict"], o["s"]] for o in r["obligations"]]})
         for o in r["obligations"]:
             n_ob += 1
@@ -172,7 +175,7 @@ def c13(tier, seed):
             "obligations": n_ob, "discharged": n_dis, "corpus_strings_agreeing": agree, "corpus_strings_disagreeing": disagree,
             "counterexamples_replayed": replayed, "counterexamples_reproduced": reproduced,
             "functions_encoded": ["crates/cgt-core/src/parser.pest (every rule, read through pest_meta's own parser)", "match_nodes! arms of crates/cgt-core/src/parser.rs (pest_consume node matching)"],
-            "bounds": f"all byte strings (bytes < 0x80) of length <= {L} that start with the date 2024-01-01, one of the keywords {kws} in any letter case and a blank, and contain no line break or '#'; related to a second string by one lexical edit: appended ' #x' comment, one more space/tab at a symbolic position, upper-casing, appended LF / CR / CRLF, a preceding full-line comment, a preceding blank line",
+            "bounds": f"(DIVIDEND: letter case and trailing comment also at length <= 36 in the quick tier) all byte strings (bytes < 0x80) of length <= {L} that start with the date 2024-01-01, one of the keywords {kws} in any letter case and a blank, and contain no line break or '#'; related to a second string by one lexical edit: appended ' #x' comment, one more space/tab at a symbolic position, upper-casing, appended LF / CR / CRLF, a preceding full-line comment, a preceding blank line",
             "outside_claim": ["lines longer than the bound (ACCUMULATION/CAPRETURN need the thorough tier)", "dates other than the fixed literal", "bytes >= 0x80", "rejection of corrupted text with the error on the offending line", "semantic actions other than node matching (decimal/currency/date conversion)"],
             "solver": "z3 5.1 (QF_BV), one process per keyword", "solver_seconds": round(sum(o["s"] for r in results for o in r.get("obligations", [])), 1),
             "encode_seconds": [r.get("encode_s") for r in results],
